@@ -165,6 +165,18 @@ def scenarios():
             {"app": 1, "unit": 2, "text": second + wall(0, 2), "after": 0}],
             "requests": [req(0, "recv", tp, 1, 0, [0] if tp == "K" else None), req(1, "recv", tp, 2, 0, [0, 1] if tp == "K" else None)],
             "streams": [{"key": [1, 0, "recv"], "responses": resp}]})
+    # 18. receive requests whose result arrays are larger than needed by an amount that is not a multiple of the record size
+    #     (16 entries for one pair, 27 for two): the number of pairs is the number of whole records
+    S.append({"name": "recv-result-arrays-with-a-partial-record", "apps": [{"app": 0, "unit": 3, "text":
+              arr(0, 16) + arr(1, 1) + stores(1, [0]) + "recv_epr(1,0) 1 0\n" +
+              arr(2, 27) + arr(3, 2) + stores(3, [1, 2]) + "recv_epr(1,0) 3 2\n" +
+              "wait_all @0[0:10]\nwait_all @2[0:20]\n"}],
+              "requests": [req(0, "recv", "K", 1, 0, [0]), req(0, "recv", "K", 2, 2, [1, 2])],
+              "streams": [{"key": [1, 0, "recv"], "responses": K(3, [1, 2, 3])}], "array_prefix_only": True})
+    S.append({"name": "recv-measure-result-array-with-a-partial-record", "apps": [{"app": 0, "unit": 1, "text":
+              arr(0, 19) + "recv_epr(1,0) C0 0\n" + arr(2, 10) + "recv_epr(1,0) C0 2\n" + "wait_all @0[0:10]\nwait_all @2[0:10]\n"}],
+              "requests": [req(0, "recv", "M", 1, 0), req(0, "recv", "M", 1, 2)],
+              "streams": [{"key": [1, 0, "recv"], "responses": M(2)}], "array_prefix_only": True})
     return S
 
 
